@@ -239,6 +239,25 @@ def gen_d43(rng, sid):
     return {"id": sid, "cluster": cluster, "ops": ops, "_R": 1, "_nlive": 2, "_joins": 1, "_leave": False, "_model": False, "_N0": 1, "_d43": True}
 
 
+def gen_leave_before_move(rng, sid):
+    """a member joins and becomes the owner of some partitions; before ANY table has moved every key is overwritten (the new
+    owner and the backup owners take the new versions, the previous owner keeps the old ones in its primary fragment); then
+    the new owner leaves and the partitions fall back to the previous owner: reads must return the overwritten values, which
+    now live in the backup copies only. Timers off: fully determined by the script."""
+    d = "c03v%d" % sid
+    keys = [dmaplib.hx("%s-k%02d" % (d, i)) for i in range(48)]
+    ops = [{"op": "put", "c": rng.choice(["emb0", "emb1", "cc"]), "d": d, "k": k, "v": dmaplib.hx("%s#1" % k[-6:])} for k in keys]
+    ops += [{"op": "join"}, {"op": "push"}, {"op": "waitsame"}]
+    for k in keys:
+        ops.append({"op": "put", "c": rng.choice(["emb2", "emb0", "cc"]), "d": d, "k": k, "v": dmaplib.hx("%s#2" % k[-6:])})
+    ops += [{"op": "stop", "m": 2, "c": rng.choice(["graceful", "abrupt"])}, {"op": "waitstable", "ms": 30000}]
+    for k in keys:
+        ops.append({"op": "get", "c": rng.choice(["emb0", "emb1"]), "d": d, "k": k})
+        ops.append({"op": "get", "c": "cc", "d": d, "k": k})
+    cluster = {"members": 2, "replicas": 2, "partitions": 7, "table": 256, "evict_workers": 1, "balancer_ms": 3600000, "push_ms": 3600000}
+    return {"id": sid, "cluster": cluster, "ops": ops, "_R": 2, "_nlive": 2, "_joins": 1, "_leave": True, "_model": False, "_N0": 2}
+
+
 def gen_d46(rng, sid):
     """D46 (repaired), directed (harness op "d46"): the receiver of a fragment move has looked its fragment up (created it,
     empty) and waits for its lock when the receiver's janitor passes and removes the empty fragment; the import must go into the
@@ -273,6 +292,8 @@ def judge(sc, obs):
             continue
         if o == "join" and r != "ok":
             return ("env", "join failed: %s" % r)
+        if o == "waitsame" and r != "ok":
+            return ("env", "the members' routing tables did not become equal: %s" % r)
         if o == "waitstable":
             if r != "ok":
                 return ("env", "cluster did not stabilise: %s" % r)
@@ -392,6 +413,8 @@ def run(res):
         scs.append(gen_d43(vlib.rng_for(res.seed, PID, "d43", j), 30000 + j))
     for j in range(2 if res.tier == "quick" else 6):
         scs.append(gen_d46(vlib.rng_for(res.seed, PID, "d46", j), 40000 + j))
+    for j in range(2 if res.tier == "quick" else 8):
+        scs.append(gen_leave_before_move(vlib.rng_for(res.seed, PID, "lbm", j), 45000 + j))
     results = memberlib.run_membership(scs, jobs=6)
     failures, envfail = [], 0
     d40_scenarios, d40_keys = 0, 0
